@@ -12,7 +12,7 @@ ORDER = ['mod:m_order', 'fn:Version::cmp', 'fn:Version::partial_cmp', 'fn:Versio
 BOUNDS = ['mod:m_bound_spec', 'fn:Predicate::flip', 'fn:Bound::upper', 'fn:Bound::lower', 'fn:Bound::predicate', 'fn:Bound::cmp',
           'fn:Bound::partial_cmp', 'fn:BoundSet::new', 'fn:BoundSet::at_least', 'fn:BoundSet::at_most', 'fn:BoundSet::exact']
 RANGE_SPEC = ['mod:m_range_spec']
-SAT = ['fn:BoundSet::satisfies', 'fn:Range::satisfies', 'fn:Version::satisfies']
+SAT = ['fn:BoundSet::satisfies', 'fn:Range::satisfies', 'fn:Version::satisfies', 'fn:Range::any']
 DESUGAR_FNS = ['caret_desugar', 'partial_desugar', 'tilde_desugar', 'hyphen_desugar'] + ['primitive_desugar_' + op for op in ('Exact', 'GreaterThan', 'GreaterThanEquals', 'LessThan', 'LessThanEquals')]
 DESUGAR = ['clauses:' + f for f in DESUGAR_FNS] + ['fn:Partial::normalize', 'fn:Version::from@m_desugar', 'fn:Version::from@m_version', 'fn:number_check', 'fn:identifier_classify']
 FROM_U64 = ['fn:Version::from@m_version']
